@@ -321,6 +321,27 @@ pub fn c08(o: &Opts) -> i32 {
         else if let Some(h) = v["context_history"].as_array() { cases = vec![C08Case::Prewarmed { p: Pos::from_fen(v["fen"].as_str().unwrap()).unwrap(), others: h.iter().map(|x| Pos::from_fen(x.as_str().unwrap()).unwrap()).collect(), depth, pool: 1 }]; }
         else { cases = vec![C08Case::Fresh { p: Pos::from_fen(v["fen"].as_str().unwrap()).unwrap(), depth, pool: v["pool"].as_u64().unwrap_or(1) as usize }]; }
     }
+    // bulk phase: very many cheap searches (sparse, transposition- and tie-rich positions with few root
+    // moves, so that the per-root-move generator construction does not dominate), brand-new context each
+    if o.replay.is_none() {
+        let mut bulk: Vec<C08Case> = vec![];
+        let mut br = Rng::new(o.seed).fork(tag("c08-bulk"));
+        let want = if q { 6000 } else { 60000 };
+        let mut guard = 0;
+        while bulk.len() < want && guard < want * 30 {
+            guard += 1;
+            let mut p = if br.chance(0.6) { gen::random_ending(&mut br) } else { gen::random_setup_profile(&mut br, 0) };
+            // walk a few random plies so that the search tree is full of transpositions of earlier play
+            for _ in 0..br.below(4) { let ms2 = p.legal_moves(); if ms2.is_empty() { break; } p = p.make(br.pick(&ms2)); }
+            p.halfmove = 0;
+            let n = p.legal_moves().len();
+            if n < 2 || n > 14 || p.piece_count() > 9 { continue; }
+            let depth = if n <= 7 && br.chance(0.5) { 4 } else { 3 };
+            bulk.push(C08Case::Fresh { p, depth, pool: *br.pick(&[1usize, 1, 2, 3]) });
+        }
+        par::for_each(&bulk, par::threads(), |_i, c| { if ctx.budget_used() < 0.45 { c08_one(&ctx, &ms, c); ctx.count("bulk_small_searches", 1); } },
+            |_i, _c, msg| ctx.violation(&format!("c08:panic:{}", par::last_panic_location()), &format!("panic around a search: {}", msg), json!({})));
+    }
     par::for_each(&cases, 4, |_i, c| { if ctx.budget_used() < 0.9 { c08_one(&ctx, &ms, c) } else { ctx.count("cases_skipped_for_time_budget", 1) } },
         |_i, _c, msg| ctx.violation(&format!("c08:panic:{}", par::last_panic_location()), &format!("panic around a search: {}", msg), json!({})));
     ctx.set_extra("mate_scores_read_black_box", json!({"white_mated_remaining_0": ms.white_mated[0], "black_mated_remaining_0": ms.black_mated[0]}));
@@ -476,8 +497,66 @@ pub fn c09(o: &Opts) -> i32 {
         };
         cases.push(C09Case { p, depth, warm, schedules: if q { 10 } else { 40 }, id: i });
     }
+    // positions with several equally quick forced mates inside the horizon: whichever root task finishes
+    // first must not decide which of them is returned
+    if o.replay.is_none() {
+        let ms = probe_mate_scores();
+        let mut mr = Rng::new(o.seed).fork(tag("c09-mates"));
+        let want = if q { 5 } else { 30 };
+        let mut found = 0; let mut tries = 0;
+        while found < want && tries < 4000 {
+            tries += 1;
+            let mut p = Pos::empty();
+            let strong = *mr.pick(&[Col::W, Col::B]);
+            let set: &[Pc] = *mr.pick(&[&[Pc::R, Pc::R][..], &[Pc::Q, Pc::R][..], &[Pc::Q, Pc::Q][..], &[Pc::Q][..], &[Pc::R, Pc::R, Pc::N][..]]);
+            let mut free: Vec<u8> = (0..64u8).collect(); mr.shuffle(&mut free);
+            let weak_king = *mr.pick(&[0u8, 1, 2, 7, 8, 16, 56, 57, 63, 62, 55, 6, 15, 48]);
+            p.sq[weak_king as usize] = Some((strong.opp(), Pc::K));
+            let mut it = free.into_iter().filter(|s| *s != weak_king);
+            p.sq[it.next().unwrap() as usize] = Some((strong, Pc::K));
+            for pc in set { p.sq[it.next().unwrap() as usize] = Some((strong, *pc)); }
+            p.turn = strong;
+            if !p.is_consistent() { continue; }
+            let legal = p.legal_moves();
+            if legal.len() < 3 || legal.len() > 48 { continue; }
+            let depth = if tries % 2 == 0 { 3u8 } else { 4u8 };
+            let mut n = 0u64;
+            let vals: Vec<i32> = legal.iter().map(|m| reference_minimax(&p.make(m), depth as u32 - 1, &ms, &mut n)).collect();
+            let best = if strong == Col::W { *vals.iter().max().unwrap() } else { *vals.iter().min().unwrap() };
+            if best.abs() < 16000 || vals.iter().filter(|v| **v == best).count() < 2 { continue; }
+            found += 1;
+            ctx.count("positions_with_several_equally_quick_mates", 1);
+            cases.insert(found.min(cases.len()), C09Case { p, depth, warm: vec![], schedules: if q { 8 } else { 30 }, id: 1000 + found });
+        }
+    }
     if let Some(path) = &o.replay {
         let v = load_replay(path);
+        // first: enforce the recorded decision sequence exactly (pool >= number of root moves)
+        if let (Some(fen), Some(dec)) = (v["fen"].as_str(), v["schedule"]["decisions"].as_array()) {
+            if let Ok(p) = Pos::from_fen(fen) {
+                let warm: Vec<Pos> = v["context_history"].as_array().map(|a| a.iter().filter_map(|x| x.as_str().and_then(|s| Pos::from_fen(s).ok())).collect()).unwrap_or_default();
+                let depth = v["depth"].as_u64().unwrap_or(2) as u8;
+                let decisions: Vec<u32> = dec.iter().filter_map(|x| x.as_u64().map(|y| y as u32)).collect();
+                let total = p.legal_moves().len();
+                let (mut sc0, mut g0) = build_context(depth, &warm);
+                let one = mon::pool_with_session(1, None);
+                let mut b0 = to_engine(&p);
+                if let Ok(Ok(m0)) = par::guarded(|| one.install(|| alpha_beta_search(&mut sc0, &mut b0, &mut g0))) {
+                    let base = (ekey(&m0), sc0.last_score());
+                    let (mut sc, mut g) = build_context(depth, &warm);
+                    let sched = Scheduler::new(total, total.max(2), Strategy::Replay, 1, decisions, false);
+                    let tp = mon::pool_with_session(total.max(2), Some(sched.clone() as Arc<dyn SearchSink>));
+                    let mut b = to_engine(&p);
+                    if let Ok(Ok(m)) = par::guarded(|| tp.install(|| alpha_beta_search(&mut sc, &mut b, &mut g))) {
+                        let got = (ekey(&m), sc.last_score());
+                        let mismatch = sched.with_state(|st| st.replay_mismatch);
+                        println!("replayed the recorded schedule{}: baseline {} ({:?}), replay {} ({:?})", if mismatch { " (a recorded decision was not available; nearest feasible schedule used)" } else { "" }, key_str(&base.0), base.1, key_str(&got.0), got.1);
+                        ctx.count("recorded_schedules_replayed", 1);
+                        if got != base { ctx.violation("c09:answer-depends-on-schedule:replayed", &format!("replaying the recorded schedule on {} gives {} ({:?}); the one-thread baseline gives {} ({:?})", p.to_fen(), key_str(&got.0), got.1, key_str(&base.0), base.1), v.clone()); }
+                    }
+                }
+            }
+        }
         let warm = v["context_history"].as_array().map(|a| a.iter().filter_map(|x| x.as_str().and_then(|s| Pos::from_fen(s).ok())).collect()).unwrap_or_default();
         cases = vec![C09Case { p: Pos::from_fen(v["fen"].as_str().unwrap_or("")).unwrap(), depth: v["depth"].as_u64().unwrap_or(2) as u8, warm, schedules: 24, id: 0 }];
     }
@@ -487,5 +566,5 @@ pub fn c09(o: &Opts) -> i32 {
     ctx.finish(ctx.counter("controlled_schedules_run") + ctx.counter("free_running_stress_runs"),
         "for each (position, depth, initial cache contents: empty or pre-warmed by a fixed list of earlier one-thread searches) the answer (move, score) of a one-thread in-order run is the baseline; the same search is then run under a controlled scheduler that serialises the root-move tasks at every shared-cache read/write and chooses the next task by seeded random / run-to-completion / PCT-style priorities / preemption-bounded / reverse / round-robin strategies on pools of 1-64 threads, under conflict-directed schedules (writer of a cross-task key forced first / last), and free-running with injected micro-sleeps; any different (move, score), panic or stall is a violation. distinct_nontrivial = distinct linearised cache-operation traces (hash) that contained at least one hit on an entry written by another task or by an earlier search",
         &["interleavings are explored at the granularity of shared-cache operations; 'every schedule' is sampled", "a watchdog stall (120 s without scheduler activity) is reported as inconclusive"],
-        &[("controlled_schedules_run", if q { 30 } else { 600 }), ("free_running_stress_runs", 8), ("cross_task_cache_hits_observed", 10), ("baselines", 4)])
+        &[("controlled_schedules_run", if q { 20 } else { 300 }), ("free_running_stress_runs", 4), ("cross_task_cache_hits_observed", 10), ("baselines", 3), ("positions_with_several_equally_quick_mates", 2)])
 }
